@@ -103,6 +103,13 @@ C18NmS == {C18QtA, C18QtB, I("a/", "n0")}
 C18NmP == {I("a/", "w"), I("a/", "n0")}
 C18NmO == {C18QtA, C18QtB, C18QtC, I("a/", "x")}
 
+\* prefix table disabled: the name table holds WHOLE IRIs, so IRIs sharing a local name across namespaces are distinct entries
+C18QtX == <<"qt", I("a/", "n0"), I("b/", "n0"), <<"qt", I("c/", "n0"), I("d#", "n0"), I("a/", "n1")>>>>
+C18QtY == <<"qt", I("b/", "n1"), I("c/", "n1"), <<"qt", I("d#", "n1"), I("", "n0"), I("", "n1")>>>>
+C18NxS == {C18QtX, I("a/", "n0")}
+C18NxP == {I("b/", "n0"), I("a/", "n2")}
+C18NxO == {C18QtY, C18QtX, I("c/", "n0")}
+
 \* C18 with mid-sized tables: 4 slots, statements (quads, quoted triples) needing 5-7 entries
 C18Iri6 == Iris({"a/", "b#", "c/", "d#", "e/", "f#", ""}, {"x"})
 C18Qt6 == {<<"qt", I("a/", "x"), I("b#", "x"), I("c/", "x")>>, <<"qt", I("d#", "x"), I("e/", "x"), <<"qt", I("f#", "x"), I("a/", "x"), I("", "x")>>>>}
